@@ -218,11 +218,26 @@ Definition may_clobber (live : Z) (r : Z) : bool :=
   existsb (fun t => match tmp_reg t with Some r' => (r' =? r) && negb (Z.testbit live t) | None => false end)
           [0; 1; 2; 3; 4; 5; 6; 7; 8; 9; 10].
 
+(** the register an instruction writes, if any *)
+Definition dest_reg (i : xins) : option Z :=
+  match i with
+  | XMov (XReg r _) _ | XAdd (XReg r _) _ | XSub (XReg r _) _ | XInc (XReg r _) | XDec (XReg r _)
+  | XImul2 (XReg r _) _ | XImul3 (XReg r _) _ _ => Some r
+  | XLea d _ _ _ => Some d
+  | _ => None
+  end.
+(** rbx (context), rsp and rbp (tape pointer) must not be written at all: they have to survive
+    exactly, not only modulo 2^w *)
+Definition pinned (r : Z) : bool := (r =? 3) || (r =? 4) || (r =? 5).
+Definition keeps_pinned (code : list xins) : bool :=
+  forallb (fun i => match dest_reg i with Some r => negb (pinned r) | None => true end) code.
+
 (** [form_ok]: after the code, the destination holds the expected polynomial, every other cell
     and stack slot holds what it held, and every register that must survive holds what it held *)
 Definition form_ok (w : Z) (i : binstr) (live : Z) (code : list xins) : bool :=
   match form_spec w i, srun w code sst0 with
   | Some (dst, want), Some s =>
+      keeps_pinned code &&
       let got := match dst with LReg r => sget_r s r | LCell k => sget_c s k | LSlot t => sget_s s t end in
       same_poly w got want
       && forallb (fun kv => xloc_eqb dst (LCell (fst kv)) || same_poly w (sget_c s (fst kv)) (e_var (acell (fst kv)))) (sc s)
